@@ -792,6 +792,24 @@ def b7(ctx):
     connection keeps its read snapshot, the client reads stale data and its next write fails with SQLITE_BUSY as
     soon as anybody else has committed."""
     obs = []
+    # a generator that is not a context manager never suspends inside a transaction block: the write lock would be
+    # held for as long as the consumer keeps the iterator, and abandoning it rolls back unrelated writes
+    for f in ctx.prog.all_funcs():
+        if not f.is_generator or f.is_contextmanager or f.parent is not None:
+            continue
+        held = None
+        ny = 0
+        for p in ctx.paths(f, 'plain'):
+            for e in p.trace:
+                if e.kind == 'YIELD':
+                    ny += 1
+                    if e.txn:
+                        held = e
+        if ny:
+            obs.append(Ob('B7', '%s/no-yield-inside-transaction' % f.qual, held is None,
+                          '%s yields while a transaction block is open: the write lock stays held while the iterator is '
+                          'suspended (other clients time out) and an iterator that is dropped early rolls back writes made '
+                          'meanwhile' % f.qual, f.loc(held.node) if held is not None else f.loc()))
     for f in ctx.prog.all_funcs():
         if f.module != 'core' or not f.is_generator or f.is_contextmanager:
             continue
